@@ -63,7 +63,10 @@ Definition set_annotations_fails (m : list (string * string)) (n : node) : bool 
                     (* a null second field: SetField("", v) turns it into the scalar v (no error), and the NEXT key
                        (keys are set in sorted order, "" first) then meets a scalar *)
                     has_key "" m && existsb (fun kv => negb (String.eqb (fst kv) "")) m
-                  else true                                     (* SetField on a sequence / scalar: wrong node kind *)
+                  else if is_scalar x then
+                    (* a non-null scalar: SetField("", v) just overwrites it; any named key meets a scalar *)
+                    existsb (fun kv => negb (String.eqb (fst kv) "")) m
+                  else true                                     (* SetField on a sequence: wrong node kind *)
       | None => has_key "" m                            (* fresh mapping; SetField("", v): FieldSetter without a name *)
       end
   end.
